@@ -53,15 +53,20 @@ def write_files(d: str, files: dict[str, str]) -> None:
             f.write(text)
 
 
-def innermost_from_traceback(text: str) -> tuple[str | None, str | None, str | None]:
-    """(exception type, file, function) of the innermost mypy frame of the last traceback in `text`"""
+def innermost_from_traceback(text: str) -> tuple[str | None, str | None, str | None, str | None]:
+    """(exception type, file, function, calling function) of the innermost mypy frame of the last traceback"""
     frames = re.findall(r'File "[^"]*/(mypyc?/[^"]+)", line \d+, in (\S+)', text)
     exc = None
     for m in re.finditer(r"^([A-Za-z_][\w.]*(?:Error|Exception|Exit|Interrupt|Warning))(?::|$)", text, flags=re.M):
         exc = m.group(1)
     if frames:
-        return exc, os.path.basename(frames[-1][0]), frames[-1][1]
-    return exc, None, None
+        caller = next((fn for _f, fn in reversed(frames[:-1]) if fn != frames[-1][1]), None)
+        return exc, os.path.basename(frames[-1][0]), frames[-1][1], caller
+    return exc, None, None, None
+
+
+def caller_of(text: str) -> str | None:
+    return innermost_from_traceback(text)[3]
 
 
 def innermost_from_dump(text: str) -> tuple[str | None, str | None]:
@@ -80,7 +85,7 @@ class Runner:
         self.lines_path = os.path.join(ctx.tmp, "lines.json")
         with open(self.lines_path, "w") as f:
             json.dump(lines, f)
-        self.inner = ctx.pick(20, 30)          # seconds before the in-process watchdog dumps the stack
+        self.inner = ctx.pick(20, 30)          # CPU seconds before the stack is dumped and the run counts as a hang
         self.env = repo_env({"PYTHONIOENCODING": "utf8:backslashreplace", "MYPY_FORCE_COLOR": "", "TERM": "dumb",
                              "COLUMNS": "200"})
         self.env.pop("MYPYPATH", None)
@@ -130,7 +135,7 @@ class Runner:
             cmd = [PY, "-m", "mypy"] + args
         t0 = time.time()
         try:
-            p = subprocess.run(cmd, cwd=d, env=self.env, capture_output=True, timeout=inner + 15)
+            p = subprocess.run(cmd, cwd=d, env=self.env, capture_output=True, timeout=inner * 12 + 30)
             rc: int | None = p.returncode
             out = p.stdout.decode("utf8", "backslashreplace")
             err = p.stderr.decode("utf8", "backslashreplace")
@@ -139,8 +144,9 @@ class Runner:
             out = (e.stdout or b"").decode("utf8", "backslashreplace")
             err = (e.stderr or b"").decode("utf8", "backslashreplace")
         res = {"rc": rc, "out": out, "err": err, "wall": time.time() - t0, "trace": None, "cmd": "mypy " + " ".join(args)}
-        if observed and re.search(r"^Timeout \(\d+:\d+:\d+\)!", err, flags=re.M):
-            res["rc"] = None                     # the watchdog fired: a hang (its exit status 1 means nothing)
+        if observed and (re.search(r"^Timeout \(\d+:\d+:\d+\)!", err, flags=re.M) or
+                         (rc is not None and rc < 0 and "most recent call first" in err)):
+            res["rc"] = None                     # CPU limit / watchdog: a hang (the exit status means nothing)
         if observed and os.path.exists(trace_path):
             try:
                 res["trace"] = json.load(open(trace_path))
@@ -173,10 +179,10 @@ def classify(res: dict, reason: str) -> dict:
         f, fn = innermost_from_dump(res.get("err", ""))
         return {"class": "hang", "file": f, "frame": fn}
     if "Traceback (most recent call last)" in text or "INTERNAL ERROR" in text:
-        exc, f, fn = innermost_from_traceback(text)
+        exc, f, fn, caller = innermost_from_traceback(text)
         if "maximum semantic analysis iteration count" in text and fn is None:
             return {"class": "semanal-iteration-cap", "exc": None, "file": "semanal_main.py", "frame": "report_hang"}
-        return {"class": "crash", "exc": exc, "file": f, "frame": fn}
+        return {"class": "crash", "exc": exc, "file": f, "frame": fn, "caller": caller}
     if res["rc"] not in (0, 1, 2):
         return {"class": "status-out-of-range", "status": res["rc"]}
     return {"class": "trace-rejected", "reason": reason}
@@ -191,10 +197,10 @@ def _entry(script: list[str], i: int) -> str:
     return script[min(i, len(script)) - 1]
 
 
-def real_sem_loop(kind: str, script: list[str], nmods: int, rng, counters: dict) -> str:
+def real_sem_loop(kind: str, script: list[str], nmods: int, rng, counters: dict, cap: int) -> str:
     """Run the real loop with `semantic_analyze_target` replaced by the script; returns `exit=… iters=…`."""
     import mypy.semanal_main as sm
-    budget = 4 * len(script) + 64
+    budget = max(4 * len(script), 2 * cap) + 64
 
     class Analyzer:
         def __init__(self):
@@ -262,9 +268,9 @@ def real_sem_loop(kind: str, script: list[str], nmods: int, rng, counters: dict)
     return f"exit={exit_} iters={counters['n']}"
 
 
-def real_fg_loop(script: list[str], counters: dict) -> str:
+def real_fg_loop(script: list[str], counters: dict, cap: int) -> str:
     import mypy.server.update as upd
-    budget = 4 * len(script) + 64
+    budget = max(4 * len(script), 2 * cap) + 64
     st = {"k": 0}
 
     def pend(k: int) -> bool:
@@ -363,7 +369,8 @@ def loop_correspondence(ctx: Ctx, info: dict, runner: Runner) -> None:
     diffs = []
     try:
         for (line, (kind, sc, nm)), m in zip(cases, model):
-            real = real_fg_loop(sc, counters) if kind == "fg" else real_sem_loop(kind, sc, nm, rng, counters)
+            real = real_fg_loop(sc, counters, info["maxIter"]) if kind == "fg" \
+                else real_sem_loop(kind, sc, nm, rng, counters, info["maxIterations"])
             ctx.case(("loop", line[:200], nm), nontrivial=len(sc) > 1)
             ctx.dist("scripted_loop", kind)
             ctx.dist("scripted_exit", m.split()[0])
@@ -439,7 +446,9 @@ def make_batch_jobs(ctx: Ctx, n: int, avoid_known: bool = True) -> list[dict]:
             for k in kinds:
                 tgt = "main.py" if (not c.files or rng.random() < 0.75) else rng.choice(sorted(files))
                 files[tgt] = mutate.mutate(k, files[tgt], rng, o.main)
-            jobs.append({"id": f"m{i}", "origin": c.name, "kinds": kinds, "files": files, "flags": list(c.flags)})
+            # the case's own flags only for a third of the flagged cases: every distinct flag set costs a cold cache
+            flags = list(c.flags) if (c.flags and rng.random() < 0.33) else []
+            jobs.append({"id": f"m{i}", "origin": c.name, "kinds": kinds, "files": files, "flags": flags})
         elif r < 0.9:
             main, files, shape = gen.program(rng)
             files = dict(files)
@@ -479,7 +488,7 @@ def run_batch(ctx: Ctx, runner: Runner, jobs: list[dict]) -> list[dict]:
 
 
 def same_failure(a: dict, b: dict) -> bool:
-    keys = ("class", "exc", "frame", "status")
+    keys = ("class", "exc", "frame", "caller", "status")
     return all(a.get(k) == b.get(k) for k in keys)
 
 
@@ -653,7 +662,16 @@ def run_history(ctx: Ctx, runner: Runner, hid: int, hist: list[dict], flags: lis
     records: list[dict] = [None] * len(hist)   # type: ignore[list-item]
     start = 0
     attempt = 0
-    step_limit = runner.inner + 10
+    step_limit = runner.inner            # CPU seconds for one step (wall clock: 12 ×, for a worker that merely waits)
+    tck = os.sysconf("SC_CLK_TCK")
+
+    def cpu_of(pid: int) -> float | None:
+        try:
+            with open(f"/proc/{pid}/stat") as f:
+                parts = f.read().rsplit(")", 1)[1].split()
+            return (int(parts[11]) + int(parts[12])) / tck
+        except (OSError, ValueError, IndexError):
+            return None
     while start < len(hist) and attempt < 6:
         attempt += 1
         wd = os.path.join(d, f"w{attempt}")
@@ -685,7 +703,9 @@ def run_history(ctx: Ctx, runner: Runner, hid: int, hist: list[dict], flags: lis
                                 last = json.loads(line)
                 except OSError:
                     pass
-                if last and "start" in last and time.time() - last["t"] > step_limit:
+                used = cpu_of(p.pid)
+                if last and "start" in last and ((used is not None and used - last.get("cpu", 0.0) > step_limit)
+                                                 or time.time() - last["t"] > 12 * step_limit):
                     hung_at = last["start"]
                     p.kill()
                     p.wait()
@@ -763,7 +783,8 @@ def daemon_search(ctx: Ctx, runner: Runner) -> None:
             elif r.get("worker_died"):
                 obs = {"class": "daemon-worker-died", "mode": "daemon", "stderr": None}
             elif r.get("exc"):
-                obs = {"class": "daemon-crash", "exc": r["exc"][0], "file": r["exc"][1], "frame": r["exc"][2], "mode": "daemon"}
+                obs = {"class": "daemon-crash", "exc": r["exc"][0], "file": r["exc"][1], "frame": r["exc"][2],
+                       "caller": caller_of(r["exc"][3]), "mode": "daemon"}
             elif "Daemon crashed" in str((r.get("resp") or {}).get("error")):
                 obs = {"class": "daemon-crash", "exc": "?", "mode": "daemon"}
             elif v != "accepted":
@@ -777,9 +798,12 @@ def daemon_search(ctx: Ctx, runner: Runner) -> None:
                 if reported < ctx.pick(6, 20):
                     reported += 1
                     prev = hist[i - 1]["write"] if i else {}
+                    steps_min = minimal_history(hist, recs, i)
+                    if obs["class"] == "daemon-crash" and known is None:
+                        steps_min = shrink_history(ctx, runner, steps_min, obs, budget=ctx.pick(8, 16))
                     ctx.report(obs, f"daemon {obs['class']} ({obs.get('exc') or obs.get('reason') or ''} in {obs.get('file')}:"
                                     f"{obs.get('frame')}) at step {i} of a history ({st['origin']} after {'+'.join(st['kinds']) or 'no mutation'})",
-                               {"daemon_history": [{"write": s["write"], "delete": s["delete"]} for s in minimal_history(hist, recs, i)],
+                               {"daemon_history": [{"write": s["write"], "delete": s["delete"]} for s in steps_min],
                                 "failed_step_files": st["write"], "previous_step_files": prev,
                                 "exception": (r.get("exc") or [None, None, None, ""])[3][-1500:], "model_verdict": v,
                                 "stderr": r.get("stderr")})
@@ -824,6 +848,58 @@ def daemon_search(ctx: Ctx, runner: Runner) -> None:
                         "daemon_out": got, "fresh_out": fresh, "daemon_status": resp.get("status"), "fresh_status": rc,
                         "left_deferred": left})
     ctx.coverage["daemon_probe_differences"] = ndiff
+
+
+def shrink_history(ctx: Ctx, runner: Runner, steps: list[dict], obs: dict, budget: int = 8) -> list[dict]:
+    """drop steps (never the last one) while the daemon still fails in the same way at the last step"""
+    used = [0]
+
+    def fails(cand: list[dict]) -> bool:
+        if used[0] >= budget:
+            return False
+        used[0] += 1
+        # deleting a step must keep the files the later steps rely on: each candidate carries full states
+        hist = [{"write": s["write"], "delete": s.get("delete", []), "probe": False, "origin": "shrink", "kinds": []} for s in cand]
+        recs = run_history(ctx, runner, 700 + used[0], hist, [])
+        r = recs[-1] if recs else None
+        if not r or not r.get("exc"):
+            return False
+        return (r["exc"][0], r["exc"][2]) == (obs.get("exc"), obs.get("frame"))
+
+    # make every step self-contained (full file state), so that steps can be removed independently
+    state: dict[str, str] = {}
+    full = []
+    for s_ in steps:
+        for n in s_.get("delete", []):
+            state.pop(n, None)
+        state.update(s_["write"])
+        full.append({"write": dict(state), "delete": []})
+    for k, s_ in enumerate(full):
+        if k:
+            s_["delete"] = sorted(set(full[k - 1]["write"]) - set(s_["write"]))
+    cur = full
+    chunk = max((len(cur) - 1) // 2, 1)
+    while chunk >= 1 and len(cur) > 2 and used[0] < budget:
+        i = 0
+        changed = False
+        while i < len(cur) - 1 and used[0] < budget:
+            cand = cur[:i] + cur[i + chunk:] if i + chunk < len(cur) else None
+            if cand and len(cand) >= 2:
+                for k, s_ in enumerate(cand):
+                    s_ = dict(s_)
+                    s_["delete"] = sorted(set(cand[k - 1]["write"]) - set(s_["write"])) if k else []
+                    cand[k] = s_
+                if fails(cand):
+                    cur = cand
+                    changed = True
+                    continue
+            i += chunk
+        if chunk == 1 and not changed:
+            break
+        chunk = max(chunk // 2, 1) if chunk > 1 else 1
+        if chunk == 1 and not changed and len(cur) <= 2:
+            break
+    return cur
 
 
 def minimal_history(hist: list[dict], recs: list[dict], i: int) -> list[dict]:
@@ -879,7 +955,8 @@ def witnesses(ctx: Ctx, runner: Runner, info: dict) -> None:
             for i, r in enumerate(recs):
                 if r and r.get("exc"):
                     verdict = "daemon-crash"
-                    obs = {"class": "daemon-crash", "exc": r["exc"][0], "file": r["exc"][1], "frame": r["exc"][2], "mode": "daemon"}
+                    obs = {"class": "daemon-crash", "exc": r["exc"][0], "file": r["exc"][1], "frame": r["exc"][2],
+                           "caller": caller_of(r["exc"][3]), "mode": "daemon"}
                     known = ctx.match_known(obs)
                     if known is not None and any(k == known["id"] for k, _ in ctx.known_hits):
                         continue
